@@ -91,6 +91,8 @@ type summary struct {
 	Fired       map[string]uint64 `json:"faults_fired"`
 	CBCalls     uint64            `json:"callback_calls"`
 	GCs         uint64            `json:"gcs"`
+	ClockJumps  uint64            `json:"clock_jumps"`
+	ClockReads  uint64            `json:"clock_reads"`
 	Stalls      uint64            `json:"stalls"`
 	StallOps    uint64            `json:"ops_completed_during_stall"`
 	LockWaits   uint64            `json:"lock_waits"`
@@ -319,7 +321,7 @@ func isLibFrame(path, scratch string) bool {
 		return false
 	}
 	rel := strings.TrimPrefix(path, scratch+"/")
-	return !strings.HasPrefix(rel, "zsim/") && !strings.HasPrefix(rel, "internal/zsimrt/") && !strings.HasPrefix(rel, "internal/zsync/") && !strings.HasPrefix(rel, "internal/zatomic/")
+	return !strings.HasPrefix(rel, "zsim/") && !strings.HasPrefix(rel, "internal/zsimrt/") && !strings.HasPrefix(rel, "internal/zsync/") && !strings.HasPrefix(rel, "internal/zatomic/") && !strings.HasPrefix(rel, "internal/ztime/")
 }
 
 var scratchRoot string // set by the orchestrator once the scratch copy exists
